@@ -310,7 +310,9 @@ Proof.
   rewrite H1. rewrite Qmult_plus_distr_r. rewrite H3, H5. reflexivity.
 Qed.
 
-Theorem add_zero_is_noop a b : real_is_zero (v_val b) = true -> v_add a b = Ok a.
+(* adding a zero keeps magnitude and units (an approximate zero makes the sum approximate) *)
+Theorem add_zero_is_noop a b : real_is_zero (v_val b) = true ->
+  v_add a b = Ok (mkval (v_val a) (v_units a) (v_exact a && v_exact b) (v_simp a)).
 Proof. intro H. unfold v_add, v_is_zero. rewrite H. reflexivity. Qed.
 
 (* ---- the rational fragment: no hypotheses about flags ---- *)
